@@ -9,8 +9,9 @@ structure FlSt where
   since : Option Nat := none
   «until» : Option Nat := none
   limit : Option Nat := none
-  /-- suffixes positioned on the tag letter, in order of appearance (`start_tags`) -/
-  tagStarts : List Bytes := []
+  /-- the saved positions `start_tags`, in order of appearance: the letter found there and the
+  input that follows it -/
+  tagStarts : List (Nat × Bytes) := []
   /-- letters seen (`found_tags` bit set) -/
   letters : List Nat := []
 deriving Repr, DecidableEq
@@ -110,7 +111,7 @@ def flMember (st : FlSt) (q : Bytes) : Outcome (FlSt × Bytes) :=
             | .ok r => match verifyChar 91 r with
               | .ok r1 => match burnArray (burnFuel r1) r1 0 with
                 | .ok r' =>
-                  .ok ({ st with tagStarts := st.tagStarts ++ [l :: qq :: after],
+                  .ok ({ st with tagStarts := st.tagStarts ++ [(l, qq :: after)],
                                  letters := l :: st.letters }, r')
                 | .err => .err
                 | .panic => .panic
@@ -204,10 +205,9 @@ def copyTagValues : Nat → Bytes → Nat → Nat → Nat → Outcome (List Byte
         | .panic => .panic
 
 /-- one tag field of "Copy tags": from the saved position on the letter; `(tag)` -/
-def copyTagField (start : Bytes) (endPos cap : Nat) : Outcome (List Bytes) :=
+def copyTagField (start : Nat × Bytes) (endPos cap : Nat) : Outcome (List Bytes) :=
   match start with
-  | [] => .panic
-  | letter :: r0 =>
+  | (letter, r0) =>
     -- count slot at endPos, then `1u16` at endPos+2, letter at endPos+4
     if cap < endPos + 4 then .err
     else if cap < endPos + 5 then .err
@@ -227,7 +227,7 @@ def copyTagField (start : Bytes) (endPos cap : Nat) : Outcome (List Bytes) :=
       | .panic => .panic
 
 /-- the `for w in 0..num_tag_fields` loop: `(offsets, tags)`; `wts` = write_tags_start -/
-def copyTagFields : List Bytes → Nat → Nat → Nat → Nat → Outcome (List Nat × TagsRec)
+def copyTagFields : List (Nat × Bytes) → Nat → Nat → Nat → Nat → Outcome (List Nat × TagsRec)
   | [], _, _, _, _ => .ok ([], [])
   | s :: ss, w, wts, endPos, cap =>
     if cap < wts + 4 + 2 * w + 2 then .err
@@ -240,6 +240,17 @@ def copyTagFields : List Bytes → Nat → Nat → Nat → Nat → Outcome (List
       | .err => .err
       | .panic => .panic
 
+/-- "Copy ids"/"Copy authors" from the remembered position, if the member was present -/
+def copyOpt32 (start : Option Bytes) (endPos cap : Nat) : Outcome (List Bytes) :=
+  match start with
+  | none => .ok []
+  | some s => copyHex32 (s.length + 1) s endPos cap 0
+
+def copyOptKinds (start : Option Bytes) (endPos cap : Nat) : Outcome (List Nat) :=
+  match start with
+  | none => .ok []
+  | some s => copyKinds (s.length + 1) s endPos cap 0
+
 /-- `Filter::from_json(json, output_buffer)`: `(consumed, length, whole buffer afterwards)` -/
 def parseFilter (inp buf : Bytes) : Outcome (Nat × Nat × Bytes) :=
   let cap := buf.length
@@ -249,22 +260,13 @@ def parseFilter (inp buf : Bytes) : Outcome (Nat × Nat × Bytes) :=
     | .ok r =>
       match flLoop (r.length + 1) {} r with
       | .ok (st, rest) =>
-        let idsR : Outcome (List Bytes) := match st.startIds with
-          | none => .ok []
-          | some s => copyHex32 (s.length + 1) s 32 cap 0
-        match idsR with
+        match copyOpt32 st.startIds 32 cap with
         | .ok ids =>
           let end1 := 32 + 32 * ids.length
-          let authR : Outcome (List Bytes) := match st.startAuthors with
-            | none => .ok []
-            | some s => copyHex32 (s.length + 1) s end1 cap 0
-          match authR with
+          match copyOpt32 st.startAuthors end1 cap with
           | .ok authors =>
             let end2 := end1 + 32 * authors.length
-            let kindsR : Outcome (List Nat) := match st.startKinds with
-              | none => .ok []
-              | some s => copyKinds (s.length + 1) s end2 cap 0
-            match kindsR with
+            match copyOptKinds st.startKinds end2 cap with
             | .ok kinds =>
               let wts := end2 + 2 * kinds.length
               let n := st.tagStarts.length
